@@ -28,6 +28,7 @@ canary "negotiated hold time of zero" C06
 canary "wait for the keepalive manager goroutine" C10
 canary "do not read peer.fsms from FSM goroutines" C10
 canary "refuse a second Serve while the server is already serving" C20
+canary "make SetLogger safe for use while a server is running" C10
 fi
 for d in /verif/seeded/*/; do
   id=$(basename $d); p=$(python3 -c "import json;print(json.load(open('$d/meta.json'))['breaks_property'])")
